@@ -677,8 +677,18 @@ func (x *Exec) applyContract(st *State, cal *Callee, recv *Value, args []Value, 
 			post.vars[n] = results[i]
 		}
 	}
+	outside := tTrue
+	if len(ct.Findings) > 0 {
+		// the callee's guarantees hold only outside its known-finding regions
+		pe := &SpecEnv{vc: vc, pkg: cal.pkg, vars: vars, st: pre, tparams: cal.tparams, allocOld: pre.alloc, exec: x}
+		var rs []Term
+		for _, f := range ct.Findings {
+			rs = append(rs, tNot(x.safeEval(pe, f, pos)))
+		}
+		outside = tAnd(rs...)
+	}
 	for _, e := range ct.Ensures {
-		st.assume(x.safeEval(post, e, pos))
+		st.assume(tImplies(outside, x.safeEval(post, e, pos)))
 	}
 	return results
 }
@@ -746,6 +756,17 @@ func crossModeOK(ct *FuncContract) string {
 	return bad
 }
 
+var allRefs = Term{S: "*ALL*", Sort: "Int"}
+
+func hasAll(refs []Term) bool {
+	for _, r := range refs {
+		if r.S == "*ALL*" {
+			return true
+		}
+	}
+	return false
+}
+
 // modset evaluates the assigns clause: kind name -> refs (nil slice with present key = whole global)
 func (x *Exec) modset(env *SpecEnv, ct *FuncContract) map[string][]Term {
 	out := map[string][]Term{}
@@ -761,6 +782,19 @@ func (x *Exec) modset(env *SpecEnv, ct *FuncContract) map[string][]Term {
 				}
 			}()
 			switch l := a.(type) {
+			case *SConv:
+				// "all []T" / "all map[K]V": every object of that kind may change
+				ty := env.resolveType(l.Type)
+				switch u := ty.Underlying().(type) {
+				case *types.Slice:
+					k := vc.sliceKind(u.Elem())
+					out[k.Name] = append(out[k.Name], allRefs)
+				case *types.Map:
+					k := vc.mapKind(u)
+					out[k.Name] = append(out[k.Name], allRefs)
+				default:
+					env.fail("'all' needs a slice or map type")
+				}
 			case *SSel:
 				base := env.eval(l.X)
 				et, isPtr := deref(base.Ty)
@@ -833,6 +867,10 @@ func (x *Exec) havocCall(st *State, cal *Callee, env *SpecEnv, pre *State) {
 				continue
 			}
 			_, allocs := eff.A[k.Name]
+			if hasAll(refs) {
+				st.heaps[hv] = vc.fresh(hv, sorts[i])
+				continue
+			}
 			if ct.HasAssigns && !allocs {
 				nh := old
 				if len(refs) > 0 {
